@@ -129,9 +129,14 @@ def ctrDropDeeper (cs : Counters) (numId : Str) (level : Int) : Counters :=
 /-! ### header / footer part texts: extractHeaderFooterText / parseHeadersAndFooters -/
 
 /-- `extractHeaderFooterText` on the tree of one header or footer part: the texts of the
-root's direct paragraphs that have any, joined by newlines -/
+root's direct paragraphs that have any, joined by newlines. When a direct paragraph nests its
+inline containers deeper than `maxInlineDepth`, `xml.Unmarshal` fails for `headerXML` and for
+`footerXML` (`err == nil` is demanded of both), no paragraph is taken and the text is empty:
+the part is left out of `headerTexts` / `footerTexts`. -/
 def partText (root : Node) : Str :=
-  joinWith [10] (((childrenNamed root.kids sP).map paraText).filter (· ≠ []))
+  if (childrenNamed root.kids sP).all paraDecodes then
+    joinWith [10] (((childrenNamed root.kids sP).map paraText).filter (· ≠ []))
+  else []
 
 /-- `r.headerTexts` / `r.footerTexts`: the non-empty part texts in relationship order -/
 def partTexts (parts : List Node) : List Str := (parts.map partText).filter (· ≠ [])
@@ -159,11 +164,17 @@ def gridColsOf (n : Node) : Nat :=
     | none => 0
   else 0
 
-/-- `docx.Open` as far as the views go -/
+/-- the reader `docx.Open` builds when `xml.Unmarshal` of document.xml succeeds -/
 def openReader (doc : Node) (styles numbering : Option Node) (headers footers : List Node) : Reader :=
   { elements := (parseBodyElementsInOrder doc).map fun n => (processElement (stylesOf styles) n, gridColsOf n),
     numbering := numberingOf numbering,
     headerTexts := partTexts headers, footerTexts := partTexts footers }
+
+/-- `docx.Open` as far as the views go: `none` = `Open` returns the error of `parseDocument`
+(a decoded paragraph of document.xml nests inline containers deeper than `maxInlineDepth`);
+`tabula.Open(f).Text()` / `.ToMarkdown()` / `.Document()` then return that error -/
+def openReader? (doc : Node) (styles numbering : Option Node) (headers footers : List Node) : Option Reader :=
+  if documentDecodes doc then some (openReader doc styles numbering headers footers) else none
 
 def rcell (c : Cell) : RCell := { text := c.text, colSpan := c.colSpan, covered := c.cont }
 def rrows (rows : List (List Cell)) : List (List RCell) := rows.map (·.map rcell)
